@@ -1,4 +1,6 @@
 import SccacheModel.Model.RustKey
+import SccacheModel.Proofs.RustArgs
+import SccacheModel.Gen.RustArgs
 
 /-! # C05 — wrapped rustc compiles are identical to direct ones and keyed on all inputs
 
@@ -7,6 +9,10 @@ tag, sysroot shared-library digests, the argument string (arguments with `--exte
 `--target` dropped, the `--cfg` group sorted, concatenated and hashed as one string), source / extern / static-lib /
 target-json digests, sorted env-deps, the `CARGO_*` variables, the working directory, `rustc -vV`; framing of
 `OsString` / `String` / `PathBuf` as std `Hash` writes it.
+Argument parser: `RArgsM` (`Model/RustArgs.lean` over the **regenerated** rustc table `Gen/RustArgs.lean`): `ArgsIter` on the
+lossy string, the value types (`ArgCodegen`, `ArgCrateTypes`, `ArgExtern`, `ArgLinkLibrary`, `ArgLinkPath`, `ArgTarget`,
+`ArgUnstable`) with their re-rendering, the classification loop and the post-loop checks of `rust::parse_arguments`; tied through
+hook H7 by `h_rustargs` + `modeld rustargs`.
 Tie: `h_framing` (framing, byte-exact) + `modeld framing`; system monitor `tools/sys_c05.py`: real sccache + rustc 1.95
 on a generated crate (module, `include_str!`, `env!`, cfg feature, extern rlib): each input edit must miss, each
 reordering must hit, every request must equal a direct rustc run (exit status, stderr, every file in `--out-dir`). -/
@@ -46,5 +52,45 @@ theorem encArg_inj (a b : Bytes) (ha : a.length < 2 ^ 64) (hb : b.length < 2 ^ 6
 theorem extern_alias_witness :
     encRust (exSwap true) = encRust (exSwap false) ∧ (exSwap true).args ≠ (exSwap false).args :=
   RustKeyM.extern_alias_witness
+
+/-! ## the argument parser (`RArgsM`) -/
+
+/-- `rust_args_complete`: when the classification loop of `parse_arguments` runs to its end, the argument list it hands to
+    `generate_hash_key` is — in order — **every** argument of the command line except the `--color` ones: nothing else is dropped,
+    duplicated or reordered, for every command line and every table. -/
+theorem rust_args_complete (cwd : RArgsM.Bytes) (toks : List (Option RArgsM.Tok)) (st st' : RArgsM.St)
+    (h : RArgsM.loop cwd st toks = .ok st') :
+    ∃ ts : List RArgsM.Tok, toks = ts.map some ∧
+      st'.args = st.args ++ (ts.filter (fun t => !t.isColor)).map RArgsM.tokArg := RArgsM.loop_args cwd toks st st' h
+
+/-- of the parsed arguments, exactly those whose flag is `--extern`, `-L`, `--out-dir` (and `--target` when it names a json file,
+    which is hashed by content) are left out of the argument string; every other one is part of it -/
+theorem hashed_args_cover (r : RReq) (a : RArg) (ha : a ∈ r.args)
+    (h1 : (flagIs fExtern a || flagIs fL a || flagIs fOutDir a) = false) (h2 : (r.targetJson && flagIs fTarget a) = false) :
+    a ∈ hashedArgs r := by
+  unfold hashedArgs
+  simp only [List.mem_filter]
+  exact ⟨⟨ha, by simp [h1]⟩, by simp [h2]⟩
+
+/-- sorting the externs only reorders them (nothing lost or invented) -/
+theorem rust_externs_perm (l : List RArgsM.Bytes) : (l.mergeSort RArgsM.lePath).Perm l := RArgsM.sorted_externs_perm l
+
+/-- over the **whole regenerated** rustc table: no two entries share a name, and the entries are in the order the binary
+    search of `ArgsIter` needs (strictly increasing byte-wise) -/
+theorem rust_table_sorted :
+    List.Pairwise (fun (a b : RArgsM.RInfo) => RArgsM.cmpBytes a.name b.name = .lt) RArgsM.rustArgs := by decide +kernel
+
+/-- the emit kinds that are cached are the three the model of `finish` accepts (regenerated `ALLOWED_EMIT`) -/
+theorem rust_allowed_emit :
+    RArgsM.allowedEmit = [[108, 105, 110, 107], [109, 101, 116, 97, 100, 97, 116, 97], [100, 101, 112, 45, 105, 110, 102, 111]] := rfl
+
+/-- non-vacuity: a cargo-like command line parses, `--color` is dropped -/
+example :
+    (match RArgsM.parseArguments RArgsM.rustArgs RArgsM.allowedEmit (fun _ => false) [47, 119]
+        [[45, 45, 99, 114, 97, 116, 101, 45, 110, 97, 109, 101], [102], [108, 46, 114, 115], [45, 45, 99, 114, 97, 116, 101, 45, 116, 121, 112, 101, 61, 108, 105, 98],
+         [45, 45, 101, 109, 105, 116, 61, 108, 105, 110, 107], [45, 45, 111, 117, 116, 45, 100, 105, 114], [111], [45, 45, 99, 111, 108, 111, 114, 61, 110, 101, 118, 101, 114],
+         [45, 45, 101, 120, 116, 101, 114, 110, 61, 97, 61, 121]] with
+     | .ok st _ _ _ _ => st.args.length == 6 && st.externs == [[121]] && st.color == .off
+     | _ => false) = true := by decide +kernel
 
 end C05
